@@ -162,3 +162,35 @@ def dirty():
         except Exception:  # pylint: disable=broad-except
             pass
     return False
+
+
+def digest():
+    """Hashable summary of the module-level state that differs from the
+    pristine one, for canonical state keys: () on a tree that keeps none.
+    Contents of functools caches cannot be read; (misses, currsize) stands in
+    for them (over-fine rather than over-coarse is the safe side)."""
+    out = []
+    for owner, name, obj, pristine in _TRACKED:
+        cur = getattr(owner, name, obj)
+        if pristine is None:
+            if cur is not obj and cur != obj:
+                out.append((getattr(owner, '__name__', '?'), name, repr(cur)))
+        elif cur is not obj or obj != pristine:
+            try:
+                body = repr(sorted(cur.items(), key=repr)) \
+                    if isinstance(cur, dict) else repr(
+                        sorted(cur, key=repr) if isinstance(cur, set)
+                        else list(cur))
+            except Exception:  # pylint: disable=broad-except
+                body = repr(cur)
+            out.append((getattr(owner, '__name__', '?'), name, body))
+    for fn in _CACHES:
+        try:
+            info = fn.cache_info()
+            if info.currsize or info.misses:
+                out.append((getattr(fn, '__module__', '?'),
+                            getattr(fn, '__qualname__', '?'),
+                            info.misses, info.currsize))
+        except Exception:  # pylint: disable=broad-except
+            pass
+    return tuple(out)
